@@ -604,7 +604,10 @@ func (g *G) tryStmt(depth int) []Stmt {
 		}
 		return g.refStmt()
 	case 22:
-		if !g.cfg.on("closure") || g.inFunc != nil || g.loop > 0 {
+		if !g.cfg.on("closure") || g.inFunc != nil {
+			return nil
+		}
+		if g.loop > 0 && !g.cfg.on("closure.nested") {
 			return nil
 		}
 		return g.closureStmt()
@@ -1196,23 +1199,43 @@ func (g *G) refStmt() []Stmt {
 	return []Stmt{&ExprStmt{X: &Call{Fn: f, Args: []Expr{&Borrow{Mut: true, X: &Var{v.name, v.t}}, g.lit(v.t)}}}, g.printVar(v.name, v.t)}
 }
 
-// closureStmt: a closure at the top level of main capturing (by reference) a dedicated counter
-// variable that is afterwards only read. Closures created in nested blocks, and captured
-// variables that are later borrowed or compound-assigned, are open findings (pinned probes).
+// closureStmt: a closure capturing (by reference) a counter variable: a dedicated one or a mutable
+// integer local of an enclosing block that the rest of the program keeps using; at the top level
+// of main, in nested blocks and in loop bodies.
 func (g *G) closureStmt() []Stmt {
-	if g.nest > 0 {
+	nested := g.nest > 0 || g.loop > 0
+	if nested && !g.cfg.on("closure.nested") {
 		return nil
 	}
 	t := g.intType()
+	// the captured variable: a fresh one, or (in a nested block) a mutable integer local of an
+	// enclosing block, which the rest of the program keeps reading and writing
 	vn := g.fresh("cap")
-	g.declare(variable{name: vn, t: t, mutable: true, reserved: true})
+	var pre []Stmt
+	reuse := false
+	if g.cfg.on("closure.captured-var-reuse") && g.chance(50) {
+		if cands := g.varsWhere(func(v variable) bool { return v.t.K == KInt && v.mutable && !v.reserved }); len(cands) > 0 {
+			c := cands[g.pick(len(cands))]
+			vn, t, reuse = c.name, c.t, true
+		}
+	}
+	if !reuse {
+		g.declare(variable{name: vn, t: t, mutable: true, reserved: !g.cfg.on("closure.captured-var-reuse")})
+		pre = []Stmt{&Let{Name: vn, T: t, Init: g.lit(t), Annot: true}}
+	}
+	if nested {
+		g.use("closure.nested")
+	}
+	if reuse {
+		g.use("closure.captured-var-reuse")
+	}
 	cn := g.fresh("cl")
 	c := &Closure{Params: []Param{{"y", t}}, Ret: t, Body: []Stmt{
 		&Assign{LHS: &Var{vn, t}, Op: "=", RHS: &Bin{Op: "+", L: &Var{vn, t}, R: &Lit{T: t, I: 1}, T: t}},
 		&Return{X: &Bin{Op: "+", L: &Var{"y", t}, R: &Var{vn, t}, T: t}},
 	}}
 	g.use("closure")
-	out := []Stmt{&Let{Name: vn, T: t, Init: g.lit(t), Annot: true}, &LetClosure{Name: cn, C: c}}
+	out := append(pre, &LetClosure{Name: cn, C: c})
 	n := 1 + g.pick(2)
 	for i := 0; i < n; i++ {
 		out = append(out, g.letPrint(t, &ClosureCall{Name: cn, C: c, Args: []Expr{g.lit(t)}})...)
